@@ -24,6 +24,7 @@ type errAbs struct {
 	site  string
 	msg   Value
 	wraps *Iface
+	kind  string // file-system error class (notexist, permission, io, ...)
 }
 
 func (e *errAbs) invoke(ex *Exec, method string, args []Value, site string) Value {
